@@ -6,7 +6,8 @@
   `int(s, 0)` / `int(s)` (`pyInt`), `parse_interface_options`, `cmd_raw`, the `except` clauses
   of `main` (`exitOf`), the try / except / finally around the handler call (`mainEnd`), the whole of `main`
   up to the call of the handler (`mainModel`), the numeric conversions of the handlers (`ArgConv`) and what
-  the printing handlers do with optional API results (`HandlerShape`).
+  the printing handlers do with optional API results (`HandlerShape`) and which sensor - LUN and number - they
+  read for a full / compact sensor record (`SensorRead`, `sensorReadOf`).
 
   Strings are lists of code points (`Str = List Nat`) so that every table check is a `Nat`
   computation in the kernel and every proof is a proof about lists.  Tables (command table,
@@ -735,6 +736,57 @@ def cellRaises (caught : List String) (code : Nat) (s : Sign) : Option String :=
 /-- the classes a handler must catch around the conversion of a reading / threshold -/
 def catchesArithmetic (caught : List String) : Bool :=
   caught.any (fun c => pyCatches c "ValueError") && caught.any (fun c => pyCatches c "ZeroDivisionError")
+
+/-! ## which sensor the printing handlers read
+
+`sdr list`, `sdr show <id>` and `sdr showall` read the sensor of a full / compact sensor record with
+`ipmi.get_sensor_reading(<rec>.number[, <lun>])`.  The sensor a record describes is named by (owner, owner LUN,
+number); the LUN argument of the call becomes the responder LUN of the Get Sensor Reading request (the API's
+`lun` parameter, C07), the number its data byte.  The translator reads, for each of the three commands and each
+`if <rec>.type is SDR_TYPE_…` branch, which LUN argument the call carries (through helper functions as well). -/
+
+/-- the `lun` argument of one `ipmi.get_sensor_reading(<rec>.number[, lun])` call -/
+inductive LunArg where
+  | default          -- no second argument: the default of the API's `lun` parameter
+  | ownerLun         -- `<rec>.owner_lun` (positional or `lun=`)
+  | const (n : Nat)  -- an integer literal
+  deriving Repr, DecidableEq
+
+/-- one `get_sensor_reading` call of a printing command: table entry, record-type branch it sits in
+(01h full / 02h compact sensor record), its LUN argument -/
+structure SensorRead where
+  cmd : String
+  recType : Nat
+  lun : LunArg
+  deriving Repr, DecidableEq
+
+/-- the LUN the call names for a record whose sensor owner LUN is `ownerLun` (`dflt` = default of the API parameter) -/
+def LunArg.eval (dflt : Nat) : LunArg → Nat → Nat
+  | .default, _ => dflt
+  | .ownerLun, l => l
+  | .const n, _ => n
+
+/-- NetFn Sensor/Event, command Get Sensor Reading (as the request appears at the interface: LUN, NetFn,
+command byte + data) -/
+def sensorReadingRequest (lun number : Nat) : Nat × Nat × List Nat := (lun, 0x04, [0x2d, number])
+
+/-- The Get Sensor Reading request command `cmd` issues for a record of type `t` with sensor owner LUN `ownerLun`
+and sensor number `number`: that of the FIRST `get_sensor_reading` call of the branch; `none` ↦ the command
+reads no sensor for a record of this type. -/
+def sensorReadOf (reads : List SensorRead) (dflt : Nat) (cmd : String) (t ownerLun number : Nat) :
+    Option (Nat × Nat × List Nat) :=
+  (reads.find? fun r => r.cmd == cmd && r.recType == t).map fun r =>
+    sensorReadingRequest (r.lun.eval dflt ownerLun) number
+
+/-- The reads of the tool as it is meant to be (and as it is shipped): `sdr show` / `sdr showall` of a FULL
+sensor record address the sensor on its owner LUN; `sdr list` and the compact branch of `sdr show` call the API
+without a LUN (DESIGN §9.7: judged an observation, not a defect - the property compares the tool with the API
+call it makes).  `Props.C20.sensor_reads_today` equates today's source with this table, so ANY change of a LUN
+argument (dropped, added, another expression) stops the build. -/
+def intendedSensorReads : List SensorRead := [
+  ⟨"sdr list", 0x01, .default⟩, ⟨"sdr list", 0x02, .default⟩,
+  ⟨"sdr show", 0x01, .ownerLun⟩, ⟨"sdr show", 0x02, .default⟩,
+  ⟨"sdr showall", 0x01, .ownerLun⟩, ⟨"sdr showall", 0x02, .default⟩]
 
 /-! ## `main` up to the handler call -/
 
